@@ -46,14 +46,14 @@ prop("C05", M(WHOLE + ALONG) + ["cputensor.squeezeDims", "validator.ValidateRedu
      bounded=[("TestReducers", "cross-check of the proved folds sum/max/min/_var and of reduceDimUsingFunc (generator with reduced dimension), including extreme magnitudes", "all shapes of rank <= 4 with sizes <= 3, every dim, random values")],
      paper=["EXTREMUM: folding max/min from -Inf/+Inf over a non-empty fibre yields its extremum (the fold is the definition of tmax/tmin)", "STAT-EXT: a whole-tensor statistic depends only on shape and elements"],
      expl="SumAlong..MeanAlong are proved to have the operand's shape with dim removed and to be the whole-tensor statistic of each fibre (the reducer closures are executed symbolically; avg = sum/n, std = sqrt(var)); the folds themselves are proved: tsum/tmax/tmin/tvar are defined as the row-major left fold from 0 / -Inf / +Inf and the recursion trav is proved to compute that fold; the reduced-dimension generator is proved under the generator protocol.")
-prop("C06", M(["At", "Slice", "Patch", "Reshape", "Flatten", "Squeeze", "UnSqueeze", "Broadcast", "NElems", "Shape"]) + ["tensor.Full", "tensor.Zeros", "tensor.Ones", "tensor.Eye", "tensor.Concat", "cputensor.completeIndex",
+prop("C06", M(["At", "Slice", "Patch", "Reshape", "Flatten", "Squeeze", "UnSqueeze", "Broadcast", "NElems", "Shape"]) + ["tensor.Full", "tensor.Zeros", "tensor.Ones", "tensor.Eye", "tensor.Concat", "tensor.TensorOf", "cputensor.completeIndex",
      "validator.ValidateAtIndexAgainstDims", "validator.ValidateSliceIndexAgainstDims", "validator.ValidatePatchIndexAgainstDims", "validator.ValidateConcatTensorsDimsAlongDim", "validator.ValidateReshapeSourceDimsAgainstTargetDims",
      "validator.ValidateUnSqueezeDimAgainstDims", "validator.ValidateSqueezeDimAgainstDims", "validator.ValidateFlattenDimAgainstDims", "cputensor.unsqueezeDims", "cputensor.squeezeDims", "cputensor.flattenDims"],
      bounded=[("TestSlicePatch", "assumed contract of copiedWithPatchOf; cross-check of the proved copiedSliceOf / dataAt", "all shapes of rank <= 3 with sizes <= 3, every combination of explicit / omitted / {0,0} ranges, every source block size and position"),
               ("TestShapeOps", "cross-check of the proved reshape / transpose / broadcast element generators (row-major sequence preserved)", "all shapes of rank <= 3 (thorough: 4) with sizes <= 3, every element-count-preserving target, and every Broadcast target of rank <= 3 with sizes <= 3 plus all rank-4 targets with sizes <= 2"),
-              ("TestConstructors", "initTensorFromData (TensorOf: no contract) and the assumed contract of initConcatResultTensor; cross-check of the proved constTensor / eyeMatrix", "ranks <= 4, sizes <= 3; Concat of 2..3 operands along every dim")],
+              ("TestConstructors", "the assumed contract of initConcatResultTensor; cross-check of the proved constTensor / eyeMatrix / TensorOf (initTensorFromData)", "ranks <= 4, sizes <= 3; Concat of 2..3 operands along every dim")],
      paper=["PROD: element count of unsqueezed / squeezed / flattened shapes (LEX - the odometer successor increments the row-major position - is machine-checked)"],
-     expl="Validators are characterised exactly; Slice / Patch / At / Concat / Reshape family / Broadcast / constructors are proved against the contracts of the L2 leaf functions (index arithmetic: completeIndex, rfrom/rwidth, catoff); the leaf functions are proved as well (generator protocol with initWith.fill, copiedSliceOf, dataAt, the row-major position theory LEX) except copiedWithPatchOf and initConcatResultTensor, which are assumed with bounded stand-ins, and TensorOf, which has no contract.")
+     expl="Validators are characterised exactly; Slice / Patch / At / Concat / Reshape family / Broadcast / constructors are proved against the contracts of the L2 leaf functions (index arithmetic: completeIndex, rfrom/rwidth, catoff); the leaf functions are proved as well (generator protocol with initWith.fill, copiedSliceOf, dataAt, the row-major position theory LEX) except copiedWithPatchOf and initConcatResultTensor, which are assumed with bounded stand-ins. TensorOf is proved too: ValidateInputDataDimUnity accepts exactly the rectangular inputs without an empty dimension (typed nested slices held by an interface value), initTensorFromData builds a tree of exactly that shape whose leaves are the corresponding input elements (ten nested loops, one invariant each), and nothing of the caller's slices is kept.")
 prop("C07", G(["Broadcast"]) + ["cputensor.broadcastForBinaryOp", "cputensor.broadcastForMatMul", "cputensor.CPUTensor.Broadcast"],
      bounded=[("TestBroadcastGrad", "value of the Broadcast rule: the gradient of the source is the SUM of the upstream gradient over all copies (explicit Broadcast and implicit expansion in Add/Sub/Mul/Div/Dot/MatMul, either operand)", "all (source, target) pairs with target rank <= 3 and sizes <= 3, expansion factor 1 included")],
      paper=["Fubini: iterated fibre sums equal the sum over the pre-image"],
@@ -63,7 +63,7 @@ prop("C08", G(RULES + ["Broadcast", "NewGradContext", "NewDirtyGradContext", "an
      paper=["MONO: 'marked' is stable under the monotone heap changes of backward", "induction over histories: the representation invariant and the per-operation postconditions are all a history can observe"],
      expl="Per operation: result spent iff an operand is spent, else tracked iff an operand is tracked; one back edge per operand; comparisons untracked; gradients are spent untracked tensors; backward from an untracked root has an empty frame, from a tracked root writes only tracked contexts, monotonically; ResetGradContext installs a fresh leaf context and touches nothing else.")
 prop("C09", ["validator.*", "tensor.*", "cputensor.Full", "cputensor.Zeros", "cputensor.Ones", "cputensor.Eye", "cputensor.RandU", "cputensor.RandN", "cputensor.Concat"] + PUBLIC_TENSOR + COMPONENTS,
-     bounded=[("TestTotality", "functions outside the verifier's reach (TensorOf: ValidateInputDataDimUnity + initTensorFromData over nested float64 slices; L2 leaves) and an end-to-end panic sweep of every public entry point", "all argument tuples from small integers in [-2,6], ranks 0..3, nil values, rectangular and ragged nested slices of depth 1..4 (quick: 20k calls, thorough: 200k)")],
+     bounded=[("TestTotality", "the two remaining assumed L2 leaves and an end-to-end panic sweep of every public entry point (TensorOf over ragged / empty nested slices included, now also proved)", "all argument tuples from small integers in [-2,6], ranks 0..3, nil values, rectangular and ragged nested slices of depth 1..4 (quick: 20k calls, thorough: 200k)")],
      expl="Safety obligations (index, slice, make, nil, type assertion, panic unreachable) of every function reachable from the public surface that is under contract, exact error characterisation of every validator and public method (err == nil iff the documented precondition), result shapes.")
 prop("C10", PUBLIC_TENSOR + ["tensor.*", "cputensor.Concat"] + G(RULES + ["Broadcast"]) + ["optimizers.*"],
      bounded=[("TestAliasing", "end-to-end: mutating every slice passed in or handed out after the call changes neither any tensor nor a later back-propagation", "every public entry point taking or returning a slice, shapes of rank <= 3")],
